@@ -186,9 +186,23 @@ def word(i: int) -> str:
     return "q" + s
 
 
-def build(n: int, cross: list[list[int]], layout: str = "flat", offset: int = 0) -> list[tuple[str, str]]:
+# probes used only where a check asks for them by name (build(..., force={file number: probe name}))
+EXTRA_PROBES = {
+    # a list accumulator with the SAME local name the `perf` probe uses for its string accumulator
+    "collector": ("py", '''def gather@(items@):
+    result@ = []
+    for item@ in items@:
+        result@ += [item@]
+    return result@
+'''),
+}
+
+
+def build(n: int, cross: list[list[int]], layout: str = "flat", offset: int = 0, shared_names: bool = False,
+          force: dict | None = None) -> list[tuple[str, str]]:
     """Return [(relative path, content)] for files 1..n.
 
+    shared_names: the per-file probes use the same identifiers in every file; force: {file number: probe name}.
     layout "flat": unique base names in one directory; "samename": one directory per file, every
     file called mod.<ext> (same base name everywhere, as with __init__.py / mod.rs / index.ts).
 
@@ -216,7 +230,11 @@ def build(n: int, cross: list[list[int]], layout: str = "flat", offset: int = 0)
                 out.append((path(f, "str", "py"), stringly_member(f, g)))
             continue
         name, ext, tmpl = PER_FILE[(f - 1 + offset) % len(PER_FILE)]
-        out.append((path(f, name, ext), tmpl.replace("@", word(f))))
+        if force and (f in force or str(f) in force):
+            name = force.get(f) or force.get(str(f))
+            ext, tmpl = EXTRA_PROBES[name] if name in EXTRA_PROBES else next((e, t) for nm, e, t in PER_FILE if nm == name)
+        # shared_names: every file uses the same identifiers (what is remembered per NAME must not travel between files)
+        out.append((path(f, name, ext), tmpl.replace("@", "" if shared_names else word(f))))
     return out
 
 
